@@ -283,7 +283,9 @@ pub fn self_monitors(mon: &mut Monitor, w: &World, rig: &Rig, events: &[Ev], sna
     }
     // C05 (spec, on_timeout / on_new_view / on_proposal): a timeout certificate for view W is only ever adopted together
     // with a move to a view above W
-    if ht.is_some_and(|v| v >= snap.view.0) {
+    // (u64::MAX excluded: `ViewNumber::next` wraps in release builds — finding F6, theorem reachable_tqcBelow has the
+    // matching no-wrap hypothesis NoWrapJ)
+    if ht.is_some_and(|v| v >= snap.view.0 && v != u64::MAX) {
         out.oracle_fail("view_not_above_timeout_qc", "the replica holds a timeout certificate for a view at or above the view it is in (it must enter the view after the certificate's view)", op.clone());
     }
     mon.last_view = snap.view.0;
